@@ -84,7 +84,7 @@ pub fn main(tier: Tier, replay: Option<String>) -> i32 {
          Non-trivial = a DELETE that removed rows is followed by another statement touching rows of a table, or a table reached >= 300 rows; distinct by hash of the op list.",
     );
     ctx.assume("statements whose verdict differs between end-of-statement and row-at-a-time constraint checking are not generated; NULL primary keys are not generated");
-    let cases = tier.pick(3000, 120_000);
+    let cases = tier.pick(3000, 30_000);
     vcore::drive(&ctx, &check, strategy, cases, 16);
     ctx.finish()
 }
